@@ -946,7 +946,10 @@ def softOf (sem : Sem) : Sem where
         (match r with
          | .val (.s (.num (.flt x))) =>
            let m := maxMag args
-           if x = 0 then (if m = 0 then r else .raiseRuntime inexactMark)
+           -- a zero (possibly -0.0, or the ideal value of a residue), and a result that IS a double although an
+           -- operand was none (0.2^-2 = 25: the code computes 24.999999999999996, and nothing downstream would
+           -- see that the value is tainted): not vouched for
+           if x = 0 || exactRat x then .raiseRuntime inexactMark
            else if decide (absR x < (2 : Rat) ^ (-1021 : Int)) then .raiseRuntime inexactMark     -- subnormal: few bits
            else if additiveNames.contains name && decide (absR x * 1000 < m) then .raiseRuntime inexactMark
            else r
